@@ -10,8 +10,9 @@ Invariant (translator-style tie; `A ::= [tag] T (constraint)` is one HOP, A the 
                                          the same formula gives because tail [] = []),
     the PER / OER records               (content equal unless the hop adds a constraint; always separately emitted),
     general_constraints                 (a function of its own when the alias or its target is constrained),
-    specifics                           (equal - same record - unless the hop adds a constraint to an INTEGER / REAL,
-                                         which may select another C representation: unsigned, float).
+    specifics                           (the SAME record for every non-numeric kind; INTEGER / REAL references may own a
+                                         record - content equal unless the hop adds a constraint - but what it says about
+                                         the C representation, float_size / field_width, never changes).
   op, elements, elements_count are IDENTICAL (the C type of A is a typedef of T's).
 Slots are compared by pointer identity (the `#X` lines of harness/dumpdescr.c) and by content (the `(mkD` terms).
 """
@@ -44,11 +45,11 @@ def zlist(tok):
 
 
 def parse_x(dump):
-    """{id: {op, el, sp, gc, per, oer, ec}} from the #X lines"""
+    """{id: {op, el, sp, gc, per, oer, ec, rep}} from the #X lines"""
     out = {}
-    for m in re.finditer(r"^#X (\d+) op=(\d+) el=(\d+) sp=(\d+) gc=(\d+) per=(\d+) oer=(\d+) ec=(\d+)$", dump, flags=re.M):
+    for m in re.finditer(r"^#X (\d+) op=(\d+) el=(\d+) sp=(\d+) gc=(\d+) per=(\d+) oer=(\d+) ec=(\d+) rep=(\d+)$", dump, flags=re.M):
         v = [int(x) for x in m.groups()]
-        out[v[0]] = dict(zip(("op", "el", "sp", "gc", "per", "oer", "ec"), v[1:]))
+        out[v[0]] = dict(zip(("op", "el", "sp", "gc", "per", "oer", "ec", "rep"), v[1:]))
     return out
 
 
@@ -71,6 +72,13 @@ def parse_descrs(dump):
 NUMERIC = ("KNativeInt", "KInt", "KReal")
 
 
+def int_width(spec):
+    """field_width of an (SInt v2e e2v ext strict width unsigned) term; 0 = native long, also for no specifics"""
+    if not spec.startswith("(SInt "):
+        return 0
+    return int(split_top(spec[1:-1])[5].strip("()"))
+
+
 def expected_tags(hop, tgt):
     _a, _t, tag, mode, _c = hop
     if tag is None:
@@ -79,7 +87,7 @@ def expected_tags(hop, tgt):
 
 
 def alias_oracle(dump, hops):
-    """-> (problems [(slot, text[, is the tagged-ANY symptom])], resolved hops [(alias id, target id, tag, implicit, constrained)])
+    """-> (problems [(slot, text[, id of the known finding whose symptom this is | None])], resolved hops [(alias id, target id, tag, implicit, constrained)])
     descriptors are looked up by name among the roots (the PDU collection: with -pdu=all every top-level type)"""
     roots, ds = parse_descrs(dump)
     xs = parse_x(dump)
@@ -103,15 +111,22 @@ def alias_oracle(dump, hops):
             probs.append(("op", "%s: op table %s/%d vs %s/%d" % (w, da["kind"], xa["op"], dt["kind"], xt["op"])))
         if xa["el"] != xt["el"] or xa["ec"] != xt["ec"] or da["elems"] != dt["elems"]:
             probs.append(("elements", "%s: member table #%d x%d vs #%d x%d" % (w, xa["el"], xa["ec"], xt["el"], xt["ec"])))
-        rigid = not (constr and dt["kind"] in NUMERIC)
-        if rigid and (xa["sp"] != xt["sp"] or da["spec"] != dt["spec"]):
-            probs.append(("specifics", "%s: specifics #%d %s vs #%d %s" % (w, xa["sp"], da["spec"][:60], xt["sp"], dt["spec"][:60])))
+        numeric = dt["kind"] in NUMERIC
+        # the C type of A is a typedef of T's: what the specifics say about the representation cannot change at ANY hop
+        if xa["rep"] != xt["rep"] or int_width(da["spec"]) != int_width(dt["spec"]):
+            probs.append(("representation", "%s: specifics describe another C representation (%s: rep %d width %s) than the target's (rep %d width %s), but %s_t is a typedef of %s_t"
+                          % (w, da["kind"], xa["rep"], int_width(da["spec"]), xt["rep"], int_width(dt["spec"]), a, t),
+                          "C10-real-reference-narrowed-to-float" if dt["kind"] == "KReal" and constr and xa["rep"] == 4 and xt["rep"] == 8 else None))
+        if not numeric and xa["sp"] != xt["sp"]:
+            probs.append(("specifics", "%s: specifics record #%d is not the target's #%d" % (w, xa["sp"], xt["sp"])))
+        if not (constr and numeric) and da["spec"] != dt["spec"]:
+            probs.append(("specifics", "%s: specifics %s vs %s" % (w, da["spec"][:80], dt["spec"][:80])))
         et, ea = expected_tags(hop, dt)
         if da["tags"] != et or da["all"] != ea:
             # (the third field: the symptom of finding C10-tagged-any-loses-tag - a tag written on a type whose chain ends in ANY
             #  is dropped from both vectors)
             probs.append(("tags", "%s: tags %s all %s, expected %s / %s from the target's %s / %s" % (w, da["tags"], da["all"], et, ea, dt["tags"], dt["all"]),
-                          da["kind"] == "KAny" and tag is not None and da["tags"] == [] and da["all"] == [] and dt["tags"] == []))
+                          "C10-tagged-any-loses-tag" if da["kind"] == "KAny" and tag is not None and da["tags"] == [] and da["all"] == [] and dt["tags"] == [] else None))
         if not constr and (da["per"] != dt["per"] or da["oer"] != dt["oer"]):
             probs.append(("codec-record", "%s: PER %s OER %s vs PER %s OER %s (no constraint added)" % (w, da["per"], da["oer"], dt["per"], dt["oer"])))
     # kinds whose runtime falls back to ANOTHER type's defaults when specifics is NULL
@@ -125,7 +140,7 @@ def coq_x(dump, resolved):
     """the xinfo list and the hop list as Gallina list bodies"""
     xs = parse_x(dump)
     n = max(xs) + 1 if xs else 0
-    xi = ["mkX %d %d %d %d" % (xs[i]["op"], xs[i]["el"], xs[i]["sp"], xs[i]["ec"]) if i in xs else "mkX 0 0 0 0" for i in range(n)]
+    xi = ["mkX %d %d %d %d %d" % (xs[i]["op"], xs[i]["el"], xs[i]["sp"], xs[i]["ec"], xs[i]["rep"]) if i in xs else "mkX 0 0 0 0 0" for i in range(n)]
     hp = ["mkH %d %d %s %s %s" % (a, t, "(-1)" if tag is None else str(tag), "true" if impl else "false", "true" if c else "false") for a, t, tag, impl, c in resolved]
     return xi, hp
 
@@ -163,5 +178,5 @@ def member_tag_oracle(dump):
             want = ds[ty]["tags"][0] if ds[ty]["tags"] else -1
             if tag != want:
                 probs.append(("member-tag", "%s member #%d (flags %d): tag %d, but its type %s has outermost tag %d" % (d["name"], k, flags, tag, ds[ty]["name"], want),
-                              ds[ty]["kind"] == "KAny" and ds[ty]["tags"] == [] and tag >= 0))
+                              "C10-tagged-any-loses-tag" if ds[ty]["kind"] == "KAny" and ds[ty]["tags"] == [] and tag >= 0 else None))
     return probs
